@@ -8,6 +8,10 @@ class PathLimit(BaseException):
     pass
 
 
+class PathCut(BaseException):
+    """Raised by a probing exploration when a path needs more than `max_depth` decisions."""
+
+
 class Explorer:
     def __init__(self, hyps=(), max_paths=5000, check_feasible=True, feas_timeout=3.0):
         self.hyps = list(hyps)
@@ -16,6 +20,8 @@ class Explorer:
         self.feas_timeout = feas_timeout
         self.npaths = 0
         self.prefix_len = 0
+        self.max_depth = None        # probing mode: cut paths after this many decisions
+        self.cut_prefixes = []
         self.ninfeasible = 0
 
     # ---- decisions
@@ -39,6 +45,8 @@ class Explorer:
         """Pick the first feasible alternative not yet explored; returns its index."""
         c = S.ctx()
         i = len(c.decisions)
+        if self.max_depth is not None and i >= self.max_depth:
+            raise PathCut()
         if i < len(c.schedule):
             k = c.schedule[i]
             rest = []
@@ -96,6 +104,13 @@ class Explorer:
                         S.RUNNING[0] = False
                     out = ('ok', val)
                 except S.Infeasible:
+                    continue
+                except PathCut:
+                    self.cut_prefixes.append(list(c.decisions))
+                    taken = c.decisions
+                    for i in range(len(taken)):
+                        for j in c.alts[i][:1]:
+                            todo.append(taken[:i] + [j])
                     continue
                 except (S.EngineGap, PathLimit):
                     raise
